@@ -2,6 +2,9 @@
  *   -DL=n        exact size of the message object (vp_malloc(L): any over-read is a bounds failure)
  *   -DMODE=0     skip mode (name == NULL)        -DMODE=1  output mode (escaped text returned)
  *   -DREF=0      drop the reference walk (totality/memory safety/consistency only; for larger L)
+ *   -DAPI=1      go through the legacy public entry ares_expand_name(encoded, abuf, alen, &s, &enclen): encoded is
+ *                abuf+start for any start 0..L INCLUDING the one-past-the-end pointer, alen is L (the exact object
+ *                size) or any value <= 0 (which the API must reject without touching anything)
  *   -DSHAPE=...  optional: per-byte cells {kind,val}; without it every byte is arbitrary
  *   -DSTART=n    optional: concrete start offset (default: any 0..L)
  *   -DEXPECT=0|1 optional: the shape must fail / succeed for every value assignment
@@ -21,6 +24,9 @@
 #ifndef REF
 #  define REF 1
 #endif
+#ifndef API
+#  define API 0
+#endif
 #define OUTMAX (5 * L + 2)
 
 enum { K_ANY = 0, K_CONST, K_PLAIN, K_OTHER, K_RESV, K_NONPR };
@@ -39,6 +45,7 @@ static int m_isresv(unsigned char c)
   return c == '"' || c == '.' || c == ';' || c == '\\' || c == '(' || c == ')' || c == '@' || c == '$';
 }
 
+void c02_pool_teardown(void);
 static unsigned char *g_data;
 static unsigned char  m_out[OUTMAX];
 static size_t         m_outlen, m_end;
@@ -143,18 +150,46 @@ void harness(void)
 #else
   vp_bytes(g_data, L);
 #endif
-  buf = ares_buf_create_const(g_data, L);
-  VP_ASSUME(buf != NULL);
 #ifdef START
   start = START;
 #else
   start = vp_range(0, L);
 #endif
-#ifdef HOSTNAME
-  is_hostname = HOSTNAME;
+#if API == 1
+  {
+    long enclen0 = vp_long(), enclen = enclen0;
+    int  alen    = vp_int();
+    VP_ASSUME(alen == L || alen <= 0);
+    is_hostname = 0; /* ares_expand_name never validates host name characters */
+    buf         = NULL;
+    st          = (ares_status_t)ares_expand_name(g_data + start, g_data, alen, MODE ? &name : NULL, &enclen);
+    if (alen <= 0 || start == L) {
+      VP_ASSERT(st == ARES_EBADNAME, "non-positive alen / encoded at or past the end is rejected with EBADNAME");
+      VP_ASSERT(name == NULL, "rejected call returns no string");
+      VP_ASSERT(enclen == (alen <= 0 ? enclen0 : 0), "rejected call reports no consumed length");
+      VP_WITNESS("api-rejected");
+      ares_free_string(name);
+      vp_free(g_data);
+#  ifdef C02_ALLOC
+      c02_pool_teardown();
+#  endif
+      VP_WITNESS("end");
+      return;
+    }
+    VP_ASSERT(enclen >= 0 && (size_t)enclen <= L - start, "enclen never exceeds alen - offset");
+    VP_ASSERT((st == ARES_SUCCESS) == (enclen > 0), "a consumed length is reported exactly on success");
+    pos = start + (size_t)enclen;
+    if (st != ARES_SUCCESS)
+      pos = L; /* no cursor to compare on failure */
+  }
 #else
+  buf = ares_buf_create_const(g_data, L);
+  VP_ASSUME(buf != NULL);
+#  ifdef HOSTNAME
+  is_hostname = HOSTNAME;
+#  else
   is_hostname = vp_bool();
-#endif
+#  endif
   VP_ASSERT(ares_buf_set_position(buf, start) == ARES_SUCCESS, "start offset accepted");
 
   st  = ares_dns_name_parse(buf, MODE ? &name : NULL, is_hostname ? ARES_TRUE : ARES_FALSE);
@@ -162,6 +197,7 @@ void harness(void)
 
   VP_ASSERT(pos <= L, "cursor ends inside the buffer");
   VP_ASSERT(ares_buf_len(buf) == L - pos, "remaining length consistent");
+#endif
 #if REF
   ok = model(start, is_hostname);
   if (ok) {
@@ -201,8 +237,15 @@ void harness(void)
 #ifdef EXPECT
   VP_ASSERT(ok == EXPECT, "shape verdict is the one the job states");
 #endif
+#if API == 1
+  ares_free_string(name);
+#else
   ares_free(name);
   ares_buf_destroy(buf);
+#endif
   vp_free(g_data);
+#ifdef C02_ALLOC
+  c02_pool_teardown();
+#endif
   VP_WITNESS("end");
 }
